@@ -1,5 +1,6 @@
 import GeodeVerif.Proofs.C17
 import GeodeVerif.GenF.Ntv2d
+import GeodeVerif.GenF.NtvSel
 /-!
 # C17 — the regenerated reading of `geodepy.transform.ntv2_2d` is the hand model
 
@@ -68,5 +69,81 @@ theorem gen_ntv2_2d_reverse_undoes_forward (method : String) (hm : method = "bic
   simp only [Except.bind]
   rw [gen_ntv2_2d_reverse method hm]
   simp
+
+
+/-! ## `interpolate_ntv2`: sub-grid test, finest-increment step, row/column arithmetic (regenerated) -/
+
+section
+variable {α : Type} [Add α] [Sub α] [Mul α] [Div α] (ops : Ops α)
+
+/-- the regenerated sub-grid test is the model's (`s_lat ≤ lat < n_lat ∧ e_long ≤ lon < w_long`, no allowance) -/
+theorem gen_contains (sg : SubGrid α) (lat lon : α) :
+    GenNtvSel.contains ops sg lat lon = contains ops sg lat lon := rfl
+
+/-- the regenerated body of `for sg in in_subgrids` is the model's step -/
+theorem gen_finestStep (st : Option α × Option (SubGrid α)) (sg : SubGrid α) :
+    GenNtvSel.finestStep ops st sg = finestStep ops st sg := by
+  unfold GenNtvSel.finestStep finestStep
+  cases h : st.1 with
+  | none => simp
+  | some inc => cases hz : ops.isZero inc <;> simp [hz]
+
+/-- hence the chosen sub-grid is the model's `finest`, for every iteration order of the candidate set -/
+theorem gen_finest (cands : List (SubGrid α)) :
+    (cands.foldl (GenNtvSel.finestStep ops) (none, none)).2 = finest ops cands := by
+  have h : ∀ (l : List (SubGrid α)) (st : Option α × Option (SubGrid α)),
+      l.foldl (GenNtvSel.finestStep ops) st = l.foldl (finestStep ops) st := by
+    intro l
+    induction l with
+    | nil => intro st; rfl
+    | cons c t ih => intro st; simp only [List.foldl_cons, gen_finestStep]; exact ih _
+  unfold finest
+  rw [h]
+
+theorem bicubic_flag (wb f : Bool) : (if (wb && !f) = true then false else wb) = (wb && f) := by
+  cases wb <;> cases f <;> rfl
+
+/-- the regenerated row/column arithmetic (with a zero-divisor test before every division) is the model's -/
+theorem gen_cellOf (sg : SubGrid α) (lat lon : α) (wb : Bool) :
+    GenNtvSel.cellOf ops sg lat lon wb = cellOf ops sg lat lon wb := by
+  unfold GenNtvSel.cellOf cellOf stencilFits
+  cases h1 : ops.isZero sg.longInc <;> cases h2 : ops.isZero sg.latInc <;>
+    simp only [Bool.false_eq_true, if_false, if_true, bind, Except.bind, pure, Except.pure, throw, throwThe,
+      MonadExceptOf.throw]
+  · generalize ops.roundI ((sg.wLong - sg.eLong) / sg.longInc) = r1
+    generalize ops.truncI ((lat - sg.sLat) / sg.latInc) = r2
+    generalize ops.truncI ((lon - sg.eLong) / sg.longInc) = r3
+    generalize ops.roundI ((sg.nLat - sg.sLat) / sg.latInc) = r4
+    cases r1 <;> cases r2 <;> cases r3 <;> cases r4 <;> simp only [] <;> try rfl
+    rw [bicubic_flag]
+end
+
+/-- C17 "computed only from that sub-grid's own nodes around the position", of the regenerated arithmetic: the cell never leaves
+the last cell and the bicubic reader is used only where the 4×4 stencil fits -/
+theorem gen_cellOf_bounds {α : Type} [Add α] [Sub α] [Mul α] [Div α] (ops : Ops α) (sg : SubGrid α)
+    (lat lon : α) (wb : Bool) (c : Cell) (h : GenNtvSel.cellOf ops sg lat lon wb = .ok c) :
+    c.row ≤ c.numRows - 2 ∧ c.col ≤ c.numCols - 2 ∧
+    (c.bicubic = true → wb = true ∧ 1 ≤ c.row ∧ c.row ≤ c.numRows - 3 ∧ 1 ≤ c.col ∧ c.col ≤ c.numCols - 3) := by
+  rw [gen_cellOf] at h
+  exact cellOf_bounds ops sg lat lon wb c h
+
+/-- C17 "where sub-grids overlap the one with the finest spacing is used", of the regenerated test and step: for any
+iteration order of the candidate set the chosen sub-grid contains the point and has the least latitude increment -/
+theorem gen_finest_subgrid (subs : List (SubGrid ℚ)) (lat lon : ℚ)
+    (perm : List (SubGrid ℚ) → List (SubGrid ℚ))
+    (hperm : (perm (subs.filter (fun sg => GenNtvSel.contains qops sg lat lon))).Perm
+      (subs.filter (fun sg => GenNtvSel.contains qops sg lat lon)))
+    (hinc : ∀ x ∈ subs, x.latInc ≠ 0)
+    (hne : subs.filter (fun sg => GenNtvSel.contains qops sg lat lon) ≠ []) :
+    ∃ r, ((perm (subs.filter (fun sg => GenNtvSel.contains qops sg lat lon))).foldl
+            (GenNtvSel.finestStep qops) (none, none)).2 = some r ∧
+      r ∈ subs ∧ (r.sLat ≤ lat ∧ lat < r.nLat ∧ r.eLong ≤ lon ∧ lon < r.wLong) ∧
+      ∀ x ∈ subs, (x.sLat ≤ lat ∧ lat < x.nLat ∧ x.eLong ≤ lon ∧ lon < x.wLong) → r.latInc ≤ x.latInc := by
+  rw [gen_finest]
+  exact finest_subgrid subs lat lon perm hperm hinc hne
+
+/-- the unit conversion, in exact arithmetic: arc-seconds, longitude positive west -/
+theorem gen_toSeconds (lat lon : ℚ) : GenNtvSel.toSeconds qops lat lon = (lat * 3600, lon * (-3600)) := by
+  simp [GenNtvSel.toSeconds, qops]
 
 end GeodeVerif.C17
